@@ -1,5 +1,5 @@
 import logging
-from typing import Optional, Tuple
+from typing import List, Optional, Tuple
 from threading import Thread
 from itertools import product
 
@@ -105,10 +105,12 @@ class BilinearForm(Form):
             )
 
             # split local stiffness matrix elements to threads
+            errors: List[Exception] = []
             threads = [
                 Thread(
                     target=self._threaded_kernel,
-                    args=(data, ix, ubasis.basis, vbasis.basis, wdict, dx)
+                    args=(data, ix, ubasis.basis, vbasis.basis, wdict, dx,
+                          errors)
                 ) for ix in np.array_split(indices, self.nthreads, axis=0)
             ]
 
@@ -117,6 +119,10 @@ class BilinearForm(Form):
                 t.start()
             for t in threads:
                 t.join()
+
+            # an exception in a thread would otherwise be lost
+            if len(errors) > 0:
+                raise errors[0]
 
         data = data.flatten('C')
 
@@ -150,12 +156,18 @@ class BilinearForm(Form):
     def _kernel(self, u, v, w, dx):
         return np.sum(self.form(*u, *v, w) * dx, axis=1)
 
-    def _threaded_kernel(self, data, ix, ubasis, vbasis, wdict, dx):
-        for ij in ix:
-            i, j = ij
-            data[j, i] = self._kernel(
-                ubasis[j],
-                vbasis[i],
-                wdict,
-                dx,
-            )
+    def _threaded_kernel(self, data, ix, ubasis, vbasis, wdict, dx,
+                         errors=None):
+        try:
+            for ij in ix:
+                i, j = ij
+                data[j, i] = self._kernel(
+                    ubasis[j],
+                    vbasis[i],
+                    wdict,
+                    dx,
+                )
+        except Exception as e:
+            if errors is None:
+                raise
+            errors.append(e)
